@@ -147,6 +147,14 @@ INTERPLAY_CONTEXTS = [
     ('hdr_class_base_in_fn', 'def pick(v):\n    return object\ndef V():\n    class K(pick({E})):\n        def m(self):\n            return [' + _L6 + ']\n    return K().m()\n'),
     ('hdr_method_default', 'class K:\n    def m(self, p={E}):\n        return [p, ' + _L6 + ']\nV = K().m\n'),
     ('hdr_async_default', 'async def co(p={E}):\n    return [p, ' + _L6 + ']\ndef V():\n    c = co()\n    try:\n        c.send(None)\n    except StopIteration as e:\n        return e.value\n'),
+    ('comp_cond_in_fn', 'def V(rows=(True, False, True)):\n    return [[row, ' + _L6 + '] for row in rows if row is ({E})]\n'),
+    ('comp_elt_in_fn', 'def V(rows=(1, 2)):\n    return [[row, {E}, ' + _L6 + '] for row in rows]\n'),
+    ('nested_comp_in_fn', 'def V(rows=((1, 2), (3,))):\n    return [[(cell, {E}, {L}, {L}) for cell in row if {L} or cell] for row in rows if ({E}) is {L}]\n'),
+    ('genexp_arg_in_fn', 'def V(rows=(1, 2)):\n    return list((row, {E}, ' + _L6 + ') for row in rows)\n'),
+    ('dictcomp_in_fn', 'def V(rows=(1, 2)):\n    return {row: [{E}, ' + _L6 + '] for row in rows}\n'),
+    ('lambda_body_args', 'V = lambda *args, **kwargs: [args, kwargs, {E}, ' + _L6 + ']\n'),
+    ('lambda_in_fn', 'def V(rows=(1, 2)):\n    key = lambda item, *rest: (item, rest, {E}, ' + _L6 + ')\n    return [key(r) for r in rows]\n'),
+    ('comp_at_module', 'V = [[row, {E}, ' + _L6 + '] for row in (1, 2) if ({E}) is {L}]\n'),
     ('body_many', 'def V():\n    return [{E}, ' + _L6 + ']\n'),
     ('comp_iter_in_fn', 'def V():\n    return [[x, ' + _L6 + '] for x in [{E}]]\n'),
     ('module_many', 'V = [{E}, ' + _L6 + ']\n'),
